@@ -103,6 +103,17 @@ CLAIMED = {
              "(pathlib on the real FS) not covered; tree contents are solver-forked masks, configurations below them enumerated concretely",
         ref="DESIGN.md section 5 C18", rx=True,
     ),
+    "C04": dict(
+        text="(S, symbolic) add_scope/end_scope/close_file/get_inner_scope with free symbolic line numbers (unbounded ints): start/end "
+             "lines, nesting, innermost scope for every query line. (RX, unbounded) END regexes as regular languages: every END spelling "
+             "recognised, each construct's END regex accepts its own keyword and no other's. (G) generated programs (11x12 construct "
+             "nestings incl. shared-label DO, type/binding, 3 interface forms, internal procedures, 5 second-unit kinds, 4 END variants, "
+             "gaps): the outline has every unit and direct procedure/type/named interface exactly once with kind, container, start and "
+             "END lines; workspace/symbol for every substring query in 3 letter cases returns exactly the matching units and module members, sorted.",
+        note="G programs are enumerated concretely below solver-chosen (construct, END variant, gap / query) indices; oracle = the generator's "
+             "own stack machine; additional symbols fortls emits are not judged; in-memory disk",
+        ref="DESIGN.md section 5 C04", rx=True,
+    ),
 }
 
 NOT_APPLICABLE = {
